@@ -128,12 +128,18 @@ func (r *DailyRotateRule) OutdatedFiles() []string {
 
 	var outdates []string
 	for _, file := range files {
-		if file < boundaryFile {
+		// 分隔符为空时，模式也会匹配当前日志文件本身，它绝不是过期备份。
+		if file < boundaryFile && !r.isCurrentFile(file) {
 			outdates = append(outdates, file)
 		}
 	}
 
 	return outdates
+}
+
+// isCurrentFile 判断 file 是否就是当前日志文件（而不是它的备份）。
+func (r *DailyRotateRule) isCurrentFile(file string) bool {
+	return filepath.Clean(file) == filepath.Clean(r.filename)
 }
 
 // ShallRotate 检查文件是否应该被轮换。
@@ -189,6 +195,14 @@ func (r *SizeLimitRotateRule) OutdatedFiles() []string {
 		return nil
 	}
 
+	// 分隔符为空时，模式也会匹配当前日志文件本身，它既不是备份也不计入备份数。
+	backups := files[:0]
+	for _, f := range files {
+		if !r.isCurrentFile(f) {
+			backups = append(backups, f)
+		}
+	}
+	files = backups
 	sort.Strings(files)
 
 	outdated := make(map[string]lang.PlaceholderType)
